@@ -1,7 +1,7 @@
 CONSTANTS
   MaxDepth = 2
-  ExtraKinds = {}
-  MaxEntries = 4
+  ExtraKinds = {"L"}
+  MaxEntries = 3
 SPECIFICATION Spec
 INVARIANTS CleanMatchesExpected Idempotent UserFilesUntouched Export
 CHECK_DEADLOCK FALSE
